@@ -10,7 +10,32 @@ import numpy as np
 from fractions import Fraction
 from harness.core import import_cuqi, quiet, q, qv, qm, pv, pm, close
 
-LEVELS = [0, 5, 50, 68, 95, 99.9, 100]
+LEVELS = [0, 0.5, 0.99, 1, 5, 50, 68, 95, 99.9, 100]
+LEVELS2 = [0, 1e-9, 0.001, 0.05, 0.25, 0.5, 0.95, 0.99, 1, 1.0, 1.5, 2.5, 5, 50, 68, 90, 95, 99, 99.9, 99.999, 100 - 1e-9, 100]
+
+
+def gen_level(rng):
+    """credibility levels over the whole of [0,100]: boundaries and just inside them, sub-1 % levels (a level such as 0.5 or
+    0.95 is half a percent / 0.95 percent, never 50 % / 95 %), just below 100, uniform, plus a malformed stream"""
+    r = rng.random()
+    if r < 0.3:
+        return rng.choice(LEVELS2)
+    if r < 0.48:
+        return rng.randint(1, 1023) / 1024.0
+    if r < 0.56:
+        return 99 + rng.randint(1, 1023) / 1024.0
+    if r < 0.85:
+        return rng.uniform(0, 100) if rng.random() < 0.5 else rng.randint(0, 800) / 8.0
+    return rng.choice([-10, -0.5, 100.5, 150, 250, -100, -101])
+
+
+def level_form(p, form):
+    """the same level as python number / numpy scalar / 0-d array"""
+    if form == 2:
+        return np.int64(p) if float(p) == int(p) and isinstance(p, int) else np.float64(p)
+    if form == 3:
+        return np.array(float(p))
+    return p
 
 
 # ----------------------------------------------------------------------------- geometries
@@ -86,16 +111,24 @@ def coupled_geom(cuqi, name, n, user):
     f2 = COUPLED["center"] if name != "center" else COUPLED["sortall"]   # fun2par: another coupling map (no inverse is claimed)
 
     class UserGeometry(Geometry):
-        """a user geometry subclassing Geometry directly"""
+        """a user geometry subclassing Geometry directly; for odd n its maps write into ONE persistent buffer and return
+        that same array object on every call (the caller must copy what it wants to keep)"""
         def __init__(self, n):
             self._n = n
+            self._buf = np.zeros(n)
         @property
         def par_shape(self):
             return (self._n,)
+        def _ret(self, out):
+            out = np.asarray(out, dtype=float)
+            if self._n % 2 == 1 and out.shape == self._buf.shape:
+                self._buf[...] = out
+                return self._buf
+            return out
         def par2fun(self, p):
-            return f1(p)
+            return self._ret(f1(p))
         def fun2par(self, f):
-            return f2(f)
+            return self._ret(f2(f))
         def _plot(self, values, **kwargs):
             pass
     g = G(UserGeometry(n), "", "coupled-user-" + name, n, (n,), n, exact=False)
@@ -122,7 +155,7 @@ def make_geom(cuqi, rng, kind=None):
         return G(Discrete(d), f"disc:{d}", kind, d, (d,), d)
     if kind in ("names", "dupnames"):
         d = rng.randint(2, 5)
-        pool = ["a", "b", "c", "x1", "x2", "k", "z9"]
+        pool = ["a", "ab", "abc", "b", "x1", "x10", "x", "x_1", "k", "z9"]     # names that are substrings / prefixes of other names
         names = rng.sample(pool, d)
         if kind == "dupnames":
             i, j = rng.sample(range(d), 2)
@@ -164,6 +197,15 @@ def make_geom(cuqi, rng, kind=None):
 
 
 # ----------------------------------------------------------------------------- dtypes of the stored chain (G1)
+LAYOUT_OF = {}    # id(number array) -> memory layout / flags / class of the array the implementation stores (G7)
+LAY_HIST = {}
+
+
+class PlainSubclass(np.ndarray):
+    """an ndarray subclass without any behaviour of its own"""
+    pass
+
+
 DTYPE_OF = {}     # id(number array) -> numpy dtype name the implementation's chain is stored with
 DT_HIST = {}
 
@@ -181,6 +223,9 @@ def choose_dtype(rng, arr, floats_only=False):
         arr = (arr > 0).astype(float)
     DTYPE_OF[id(arr)] = dt
     DT_HIST[dt] = DT_HIST.get(dt, 0) + 1
+    lay = rng.choice(["C"] * 6 + ["F", "strided", "reversed", "readonly", "sample-axis-first", "subclass"])
+    LAYOUT_OF[id(arr)] = lay
+    LAY_HIST[lay] = LAY_HIST.get(lay, 0) + 1
     return arr
 
 
@@ -190,7 +235,24 @@ def dt_of(arr):
 
 def impl_arr(arr):
     """a fresh array with the same numbers in the chosen storage dtype"""
-    return np.array(arr, dtype=float).astype(dt_of(arr))
+    base = np.array(arr, dtype=float).astype(dt_of(arr))
+    lay = LAYOUT_OF.get(id(arr), "C")
+    if lay == "F":
+        return np.asfortranarray(base)
+    if lay == "strided":                      # every second element of a wider buffer
+        big = np.zeros(base.shape[:-1] + (2 * base.shape[-1],), dtype=base.dtype)
+        big[..., ::2] = base
+        return big[..., ::2]
+    if lay == "reversed":                     # negative stride along the sample axis
+        return base[..., ::-1].copy()[..., ::-1]
+    if lay == "readonly":
+        base.flags.writeable = False
+        return base
+    if lay == "sample-axis-first":            # transposed view: the sample axis is the slowest in memory
+        return np.moveaxis(np.ascontiguousarray(np.moveaxis(base, -1, 0)), 0, -1)
+    if lay == "subclass":
+        return base.view(PlainSubclass)
+    return base
 
 
 # ----------------------------------------------------------------------------- canonical states
@@ -324,7 +386,7 @@ def oracle_convert(ctx, key, desc, S, op, R, g):
         return ok
     N = S.samples.shape[-1]
     with quiet():
-        want = [np.asarray(conv(S.samples[..., i])) for i in range(N)]
+        want = [np.array(conv(S.samples[..., i]), copy=True) for i in range(N)]    # copy: a map may return the same buffer every call
     got = R.samples
     good = isinstance(got, np.ndarray) and got.shape[-1] == N and all(
         got[..., i].size == w.size and (w.ndim <= 1 or got[..., i].shape == w.shape)
@@ -421,8 +483,10 @@ def same_answer(u, v):
     return u == v
 
 
-def do_read(S, r, p=95):
+def do_read(S, r, p=None):
     """one read of S whose result is discarded by the caller; returns a fingerprint of the answer"""
+    if p is None:
+        p = (95, 0.5, 50, 0.99, 100)[int(S.samples.shape[-1]) % 5] if isinstance(S.samples, np.ndarray) else 95
     try:
         with quiet():
             if r in ("fv", "vec", "par"):
@@ -492,10 +556,10 @@ def derived_checks(ctx, R, g, derived, key, desc, model_states, exact, tol=1e-12
             arr = R.samples
             if not isinstance(arr, np.ndarray) or arr.shape[-1] == 0 or arr.size > 120 or not np.all(np.isfinite(arr)) or arr.dtype == bool:
                 continue   # (np.percentile refuses boolean arrays: a refusal of numpy, not a wrong value)
-            p = 95
+            p = (0.5, 95, 50, 0.99, 100, 0.05)[(arr.shape[-1] + j) % 6]
             try:
                 with quiet():
-                    res = (R.mean(), R.median(), R.variance(), R.std(), R.compute_ci(p), R.ci_width(p))
+                    res = (R.mean(), R.median(), R.variance(), R.std(), R.compute_ci(p), R.ci_width(percent=p))
             except Exception as e:
                 ctx.fail(f"{key}:then-stats:raised", ddesc, "statistics", type(e).__name__, "statistics of a returned object raise")
                 ok = False
@@ -530,6 +594,10 @@ def apply_op(S, op):
         b, t = op[1], op[2]
         if (b + t) % 3 == 0:      # numpy integer scalars are accepted wherever python ints are
             b, t = np.int64(b), np.int32(t)
+        elif (b + t) % 3 == 1:    # keyword form
+            return S.burnthin(Nb=b, Nt=t) if b % 2 else S.burnthin(b, Nt=t)
+        elif t == 1 and b % 2 == 0:
+            return S.burnthin(b)  # default thinning is 1
         return S.burnthin(b, t)
     if op[0] == "fv":
         return S.funvals
@@ -684,13 +752,14 @@ def run(ctx):
         ip, iv = {"par": (True, True), "vec": (False, True), "fun": (False, arr.ndim <= 2), "raw": (False, False)}[rep]
         desc = {"geometry": g.spec, "rep": rep, "shape": list(arr.shape), "ops": [op_str(o) for o in ops],
                 "samples": arr.tolist() if arr.size <= 60 else "array of %d" % arr.size,
-                "side_reads_before_op": {str(k): v for k, v in plan["reads"].items()}, "dtype": dt_of(arr)}
+                "side_reads_before_op": {str(k): v for k, v in plan["reads"].items()}, "dtype": dt_of(arr), "layout": LAYOUT_OF.get(id(arr), "C")}
         ctx.case(kind, {k: desc[k] for k in ("geometry", "rep", "shape", "ops")} | {"h": hash(arr.tobytes()) % 10 ** 6}, nontrivial=(arr.shape[-1] >= 2))
         mstates = out.split(" | ") if out else []
         with quiet():
             S = Samples(impl_arr(arr), geometry=g.obj, is_par=ip, is_vec=iv)
         istates = []
         cur = S
+        retained = [(S, state_str(S, g), "the initial object")]     # G8: everything a call returned, re-verified at the end of the case
         for k, op in enumerate(ops):
             key = f"{'burnthin' if op[0] == 'bt' else {'fv': 'funvals', 'vec': 'vector', 'par': 'parameters'}[op[0]]}:{g.kind}:{rep}"
             sdesc = {**desc, "step": k, "op": op_str(op)}
@@ -750,6 +819,8 @@ def run(ctx):
                     cstat["Ns>1"] += int(R.samples.shape[-1] > 1 and R is not cur)
                 else:
                     cstat["refusals_agreeing"] += 1
+            if exc is None and R is not cur:
+                retained.append((R, st, f"result of step {k} ({op_str(op)})"))
             if exc is not None:
                 break
             # ---- reads derived from the returned object (burnthin-then-read, conversion-then-read)
@@ -768,6 +839,11 @@ def run(ctx):
                 # depend on shape inference of the geometry, which the model does not carry — stop here
                 istates.append("err:empty")
                 break
+        for obj, st0, what in retained:
+            st1 = state_str(obj, g)
+            if st1 != st0 and not states_equal(st0, st1, exact=False, tol=0.0):
+                ctx.fail(f"retained:{g.kind}:{rep}", {**desc, "retained": what}, "an object returned earlier still holds the same samples/flags/geometry at the end", st1[:200],
+                         "a later call overwrote an earlier result (reused buffer / view into a cache)")
         final_states.append((g, cur if len(istates) == len(ops) and not istates[-1].startswith("err") else None,
                              mstates[-1] if mstates and len(mstates) == len(ops) and not mstates[-1].startswith("err") else None, desc))
     ctx.extra_cov["burnthin_results_sharing_memory_with_source"] = aliasing
@@ -777,6 +853,81 @@ def run(ctx):
     if nonfinite[0]:
         ctx.note(f"{nonfinite[0]} states contain NaN produced by a geometry map (StepExpansion with an empty interval, C13 finding): oracle run, exact model not compared")
     ctx.note(f"{aliasing} burnthin results are numpy views of the source array (the call itself leaves the source unchanged; later in-place writes to the result would alias)")
+
+    # ------------------------------------------------------------------ 3b. attributes RE-ASSIGNED after first use (samples, geometry), on the object and on a burnthin copy
+    from cuqi.geometry import Continuous1D as _C1, MappedGeometry as _MG
+    rcs = []
+    for i in range(120 * K):
+        d = rng.randint(1, 4)
+        N = rng.choice([2, 3, 5, 8])
+        def mg():
+            a, b = rng.choice([2, 4, -2, 0.5, 3]), rng.choice([0, 1, -3, 2])
+            gg = G(_MG(_C1(d), map=f64(lambda x, a=a, b=b: a * x + b), imap=f64(lambda y, a=a, b=b: (y - b) / a)), f"map:{q(a)}:{q(b)}:aff:c1d:{d}", "reassign", d, (d,), d)
+            return gg
+        g1, g2 = mg(), mg()
+        a1 = choose_dtype(rng, np.array([rng.randint(-9, 9) for _ in range(d * N)], dtype=float).reshape(d, N))
+        N2 = rng.choice([N, N, 4])
+        a2 = choose_dtype(rng, np.array([rng.randint(-9, 9) for _ in range(d * N2)], dtype=float).reshape(d, N2))
+        rcs.append((g1, g2, a1, a2, rng.randint(0, N - 1), rng.randint(1, 2)))
+    lines = []
+    for g1, g2, a1, a2, b, t in rcs:
+        lines.append(f"seq {g1.spec} {a2.shape[0]} 1 1 {qm(cols_of(a2))} fv")       # fresh object with the current samples
+        lines.append(f"seq {g2.spec} {a2.shape[0]} 1 1 {qm(cols_of(a2))} fv")       # … and the current geometry
+        lines.append(f"seq {g1.spec} {a1.shape[0]} 1 1 {qm(cols_of(a1))} bt:{b}:{t};fv")
+    outs = ctx.lean.drive(lines)
+    for ci, (g1, g2, a1, a2, b, t) in enumerate(rcs):
+        desc = {"geometry": [g1.spec, g2.spec], "samples": a1.tolist(), "samples_assigned_later": a2.tolist(), "dtype": [dt_of(a1), dt_of(a2)], "burnthin": [b, t]}
+        ctx.case("reassign", {"g": desc["geometry"], "h": hash(a1.tobytes() + a2.tobytes()) % 10 ** 6})
+        key = "reassign"
+        nf = len(ctx.failures)
+        try:
+            with quiet():
+                S = Samples(impl_arr(a1), geometry=g1.obj)
+            first = [do_read(S, r) for r in ("fv", "mean", "ci", "par", "vec")]                # fills whatever a read may fill
+            with quiet():
+                Rb = S.burnthin(b, t)
+            fv_b = do_read(Rb, "fv")
+            # (i) a copy re-configured afterwards must not change the answers of its source, nor the other way round
+            Rb.geometry = g2.obj
+            again = [do_read(S, r) for r in ("fv", "mean", "ci", "par", "vec")]
+            if not all(same_answer(u, v) for u, v in zip(first, again)):
+                ctx.fail(key + ":copy-reconfigured", desc, "source answers unchanged after its burnthin copy got another geometry", "changed", "re-assigning an attribute of a burnthin copy changes the source")
+            with quiet():
+                F = Rb.funvals
+            oracle_convert(ctx, key + ":copy-geometry", desc, Rb, "fv", F, g2)
+            Rb.geometry = g1.obj
+            with quiet():
+                F = Rb.funvals
+            if not same_answer(do_read(Rb, "fv"), fv_b):
+                ctx.fail(key + ":copy-geometry-back", desc, "function values of the original geometry again", "different", "a geometry assigned back is not used")
+            m = outs[3 * ci + 2].split(" | ")
+            if len(m) == 2 and not states_equal(m[1], state_str(F, g1), exact=True):
+                ctx.disagree(fkey(ctx, nf, key + ":copy-geometry-back"), desc, m[1][:200], state_str(F, g1)[:200], "funvals of the burnthin copy differs from the model")
+            # (ii) new samples assigned to the same object: every later answer is that of a fresh object holding them
+            S.samples = impl_arr(a2)
+            with quiet():
+                F2 = S.funvals
+                res = (S.mean(), S.median(), S.variance(), S.std(), S.compute_ci(0.5), S.ci_width(0.5)) if dt_of(a2) != "bool" else None
+            oracle_convert(ctx, key + ":samples", desc, S, "fv", F2, g1)
+            if int(S.Ns) != a2.shape[-1]:
+                ctx.fail(key + ":samples:Ns", desc, a2.shape[-1], int(S.Ns), "Ns is not that of the samples assigned last")
+            if res is not None:
+                oracle_stats(ctx, key + ":samples:stats", {**desc, "percent": 0.5}, np.array(a2, dtype=float), 0.5, res)
+            if not states_equal(outs[3 * ci], state_str(F2, g1), exact=True):
+                ctx.disagree(fkey(ctx, nf, key + ":samples"), desc, outs[3 * ci][:200], state_str(F2, g1)[:200], "funvals after re-assigning samples differs from a fresh object (model)")
+            # (iii) another geometry assigned through the setter: conversions use it
+            nf = len(ctx.failures)
+            S.geometry = g2.obj
+            with quiet():
+                F3 = S.funvals
+            oracle_convert(ctx, key + ":geometry", desc, S, "fv", F3, g2)
+            if not states_equal(outs[3 * ci + 1], state_str(F3, g2), exact=True):
+                ctx.disagree(fkey(ctx, nf, key + ":geometry"), desc, outs[3 * ci + 1][:200], state_str(F3, g2)[:200], "funvals after re-assigning the geometry differs from a fresh object (model)")
+            # G8: the objects returned before the re-assignments still hold what they held
+            if not same_answer(fp(F2.samples), fp(np.array([[float(g1.obj.par2fun(np.asarray(a2[:, i], dtype=float))[k]) for i in range(a2.shape[1])] for k in range(a2.shape[0])]))):
+                ctx.fail(key + ":retained", desc, "earlier funvals result unchanged", "changed", "a later call / re-assignment changed an object returned earlier")
+        except Exception as e:   # an exception anywhere in this history on valid inputs is itself a failure of the property
+            ctx.fail(key + ":raised", desc, "no exception for valid samples / geometries / levels", f"{type(e).__name__}: {str(e)[-120:]}", "a call on valid input raised after attributes were re-assigned")
 
     # ------------------------------------------------------------------ 4. statistics (raw arrays and final states of the sequences)
     stat_cases = []
@@ -797,12 +948,11 @@ def run(ctx):
         arr = choose_dtype(rng, arr)
         if dt_of(arr) == "float64" and rng.random() < 0.2:   # G4: extreme scales (powers of two keep every operation exact)
             SCALE_OF[id(arr)] = 2.0 ** rng.choice([-40, 40, -20, 30])
-        r = rng.random()
-        p = rng.choice(LEVELS) if r < 0.5 else (rng.randint(0, 800) / 8.0 if r < 0.85 else rng.choice([-10, -0.5, 100.5, 150, 250, -100, -101]))
+        p = gen_level(rng)
         stat_cases.append((arr, p, "stat-random", None))
     for g, Sfin, mfin, desc in final_states:
         if Sfin is not None and mfin is not None and isinstance(Sfin.samples, np.ndarray) and Sfin.samples.shape[-1] >= 1 and rng.random() < 0.5:
-            stat_cases.append((Sfin.samples, rng.choice(LEVELS), "stat-after-sequence", (g, Sfin, mfin, desc)))
+            stat_cases.append((Sfin.samples, gen_level(rng) if rng.random() < 0.6 else rng.choice(LEVELS), "stat-after-sequence", (g, Sfin, mfin, desc)))
     lines = []
     for arr, p, kind, extra in stat_cases:
         shape = ",".join(str(v) for v in arr.shape[:-1])
@@ -812,6 +962,7 @@ def run(ctx):
             sh, _, _, _, cols = split_state(extra[2])
             lines.append(f"stat {sh} {cols} {q(p)}")
     outs = ctx.lean.drive(lines)
+    stat_i = 0
     for (arr, p, kind, extra), out in zip(stat_cases, outs):
         scale = SCALE_OF.get(id(arr), 1.0)
         desc = {"shape": list(arr.shape), "percent": p, "samples": arr.tolist() if arr.size <= 60 else "array of %d" % arr.size,
@@ -821,11 +972,23 @@ def run(ctx):
         ctx.case(kind, {"shape": desc["shape"], "percent": p, "dtype": desc["dtype"], "scale": scale, "h": hash(arr.tobytes()) % 10 ** 6})
         is_bool = (extra is None and dt_of(arr) == "bool") or (extra is not None and arr.dtype == bool)
 
+        form = stat_i % 4
+        stat_i += 1
+        desc["level_passed_as"] = ["positional", "keyword", "numpy scalar", "0-d array"][form] + (" / default" if p == 95 and form == 1 else "")
+
         def all_stats(S):
             with quiet():
-                r = [S.mean(), S.median(), S.variance(), S.std()]
                 try:
-                    r += [S.compute_ci(p), S.ci_width(p), None]
+                    r = [S.mean(), S.median(), S.variance(), S.std()]
+                except Exception as e:
+                    return [None] * 6 + ["basic:" + type(e).__name__]
+                try:
+                    if form == 1 and p == 95:
+                        r += [S.compute_ci(), S.ci_width(), None]            # the default level is 95
+                    elif form == 1:
+                        r += [S.compute_ci(percent=p), S.ci_width(percent=p), None]
+                    else:
+                        r += [S.compute_ci(level_form(p, form)), S.ci_width(level_form(p, form)), None]
                 except Exception as e:
                     r += [None, None, type(e).__name__]
             return r
@@ -839,6 +1002,10 @@ def run(ctx):
             S = extra[1] if extra is not None else Samples(impl_arr(arr) * scale if scale != 1.0 else impl_arr(arr))
         snap = snapshot(S)
         raw = all_stats(S)
+        key = f"stats:{'nd' if arr.ndim > 2 else '2d'}" + (":after-" + extra[0].kind if extra is not None else "")
+        if raw[0] is None:
+            ctx.fail(key + ":raised", desc, "mean/median/variance/std", raw[6], "a basic statistic raised on a numeric chain")
+            continue
         mean, med, var, std, ci, width, ci_err = unscale([v if not isinstance(v, np.ndarray) else np.array(v, copy=True) for v in raw])
         extras["scaled"] += int(scale != 1.0)
         key = f"stats:{'nd' if arr.ndim > 2 else '2d'}" + (":after-" + extra[0].kind if extra is not None else "")
@@ -854,6 +1021,15 @@ def run(ctx):
         elif 0 <= p <= 100 and ci_err is not None:
             ok = False
             ctx.fail(key + ":ci-refused", desc, "bounds", ci_err, "compute_ci refuses a credibility level in [0,100]")
+        # G8: results already returned are not overwritten by the same statistics of ANOTHER object (reused internal buffers)
+        if ok and extra is None:
+            keep0 = [None if v is None else np.array(v, copy=True) for v in raw[:6]]
+            with quiet():
+                other = Samples(np.array(numbers[..., ::-1] * 3 + 1, dtype=float))
+            all_stats(other)
+            if not all(same_answer(a, np.asarray(b)) for a, b in zip(keep0, raw[:6]) if a is not None):
+                ok = False
+                ctx.fail(key + ":retained", desc, "statistics returned earlier unchanged", "changed", "statistics of another object overwrote results returned earlier")
         # G3: the returned arrays are the caller's — overwriting them must not change later answers
         if ok:
             keep = [None if v is None else np.array(v, copy=True) for v in raw[:6]]
@@ -866,7 +1042,7 @@ def run(ctx):
                 ok = False
                 ctx.fail(key + ":alias", desc, "same statistics after the caller overwrote the returned arrays", "different", "a returned statistic aliases internal state")
         # G5: an in-place update of the SAME stored array must be reflected by the next call (no stale memo)
-        if ok and extra is None and arr.shape[-1] >= 2 and scale == 1.0:
+        if ok and extra is None and arr.shape[-1] >= 2 and scale == 1.0 and S.samples.flags.writeable:
             S.samples[..., 0] = S.samples[..., -1]
             upd = np.array(S.samples, dtype=float)
             r2 = all_stats(S)
@@ -911,6 +1087,7 @@ def run(ctx):
 
     ctx.extra_cov["statistics_generic_classes"] = extras
     ctx.extra_cov["chain_dtypes"] = dict(DT_HIST)
+    ctx.extra_cov["chain_layouts"] = dict(LAY_HIST)
     # percentile level sweep on one chain (all levels k/4, k = 0..400)
     chain = [rng.randint(-30, 30) for _ in range(rng.choice([6, 9, 14]))]
     qs = [k / 4.0 for k in range(0, 401, 1 if thorough else 4)]
